@@ -7,6 +7,7 @@ import (
 	"fmt"
 	"io"
 	"io/ioutil"
+	"math"
 	"net/http"
 	"path"
 	"reflect"
@@ -609,7 +610,13 @@ func contextFromHeaders(parent context.Context, h http.Header) (context.Context,
 				unit = time.Nanosecond
 			}
 			if unit != 0 {
-				ctx, cancel = context.WithTimeout(ctx, time.Duration(timeoutVal)*unit)
+				d := time.Duration(timeoutVal) * unit
+				if timeoutVal > 0 && d/unit != time.Duration(timeoutVal) {
+					// overflow (e.g. "99999999H"): saturate instead of
+					// wrapping around to an arbitrary, possibly negative, timeout
+					d = math.MaxInt64
+				}
+				ctx, cancel = context.WithTimeout(ctx, d)
 			}
 		}
 	}
